@@ -331,7 +331,8 @@ Proof. unfold remove_hash. apply with_cpath_all. intros l. apply all_steps_step_
 Lemma remove_fully_all key : all_steps csafe' (remove_fully hash key).
 Proof.
   unfold remove_fully. apply all_steps_rbind; [apply find_all|]. intros e. apply all_steps_rbind.
-  - destruct e as [m|]; [|exact I]. apply with_cpath_all. intros l. apply all_steps_step_ok. cbn. intros l0 [].
+  - destruct e as [m|]; [|exact I]. apply with_cpath_all. intros l. unfold unlink_if_present. cbn [all_steps].
+    split; [cbn; intros l0 []|]. intros r. destruct r as [| | | | | |[]]; exact I.
   - intros _. apply all_steps_step_ok. cbn. intros l0 [].
 Qed.
 Lemma extract_hash_all x checked i dst : ~ is_content dst -> all_steps csafe' (extract_hash hash x checked i dst).
